@@ -551,6 +551,12 @@ func (r *c5Run) derive(p *c5Node) *c5Node {
 				m.fields = append(m.fields, nil)
 			}
 			what = "With().Reset"
+			if ch.Chance(1, 2) {
+				// a context that is only a few bytes long after the reset: whatever the reset
+				// context starts from, even its smallest spare capacity must not be shared
+				ops = []fop{{Kind: fInt, Key: string(rune('a' + ch.Intn(26))), N: ch.Intn(10)}}
+				zsim.Probe("tiny_context_after_reset")
+			}
 		}
 		m.fields = append(m.fields, ops)
 		r.task().seen = nil
